@@ -3,6 +3,7 @@ package main
 import (
 	"cmp"
 	"fmt"
+	"math"
 	"strconv"
 	"strings"
 )
@@ -48,17 +49,28 @@ var specialStrings = []string{
 	",", ":", "\\", "a b", "\t", " ", "日本", "aa", "Aa", "b:", "\"a\":", "\"1\"", "0", "-3", "k", "K",
 	"\x7f", "zz", "Zz", "éa", "a,b", "{\"a\":1}", "[1]", "\n", "  ", "x", "y", "z", "X", "Y", "Z",
 	"\x00", "\x01", "\x1f", "\x1b[0m", "\u0080", "\u2028", "\u2029", "\U0001F600", "\ufffd", "\\u0041", "a\x00b", "\r\n", "\v", "\a",
+	"a ", " a", "a\t", "A ",
 	"'", "`", "/", "\\\"", "0.5", "1e3", "-0", "01", "+1", " 1", "9007199254740993", "\U0010ffff", "e\u0301", "ß", "ǅ", "İ",
 }
 
-func intTab(n int) []int {
+// specialInts are substituted for the last entries of the spaced table, rotated by a per-run offset.
+// 2^53+1 is not representable as float64: a decoder going through float64 shows.
+var specialInts = []int{math.MinInt, math.MaxInt, -1, 1, 1<<53 + 1, -(1<<53 + 1), 2, 1 << 31, -(1 << 31), 7, 100, 255, 256, 1 << 16, math.MinInt + 1, math.MaxInt - 1}
+
+func intTab(n int, off int) []int {
 	t := make([]int, n)
+	seen := map[int]bool{}
 	for i := range t {
 		t[i] = (i - n/2) * 3
+		seen[t[i]] = true
 	}
-	if n >= 12 {
-		t[n-1] = 1<<53 + 1 // not representable as float64: a decoder going through float64 shows
-		t[n-2] = -(1<<53 + 1)
+	k := min(n/4, 4)
+	for j := 0; j < k; j++ {
+		v := specialInts[(off+j)%len(specialInts)]
+		if !seen[v] {
+			seen[v] = true
+			t[n-1-j] = v
+		}
 	}
 	return t
 }
@@ -85,12 +97,12 @@ func itemTab(n int) []Item {
 	return t
 }
 
-var intCmps = []string{"nat", "rev", "div9", "mod5"}
-var strCmps = []string{"nat", "rev", "len", "fold"}
-var itemCmps = []string{"nat", "rev"}
+var intCmps = []string{"nat", "rev", "div9", "mod5", "natbig"}
+var strCmps = []string{"nat", "rev", "len", "fold", "natbig"}
+var itemCmps = []string{"nat", "rev", "natbig"}
 
-func intDom(n int, cmpName string) *Dom[int] {
-	d := &Dom[int]{Elem: "int", CmpName: cmpName, Tab: intTab(n), Str: strconv.Itoa}
+func intDom(n int, cmpName string, off int) *Dom[int] {
+	d := &Dom[int]{Elem: "int", CmpName: cmpName, Tab: intTab(n, off), Str: strconv.Itoa}
 	switch cmpName {
 	case "", "nat":
 		d.CmpName = "nat"
@@ -99,6 +111,9 @@ func intDom(n int, cmpName string) *Dom[int] {
 		d.Ordered = true
 	case "rev":
 		d.Cmp = func(a, b int) int { return cmp.Compare(b, a) }
+		d.Class = strconv.Itoa
+	case "natbig": // a legal comparator that returns values other than -1/0/1
+		d.Cmp = func(a, b int) int { return cmp.Compare(a, b) * (1<<40 + 7) }
 		d.Class = strconv.Itoa
 	case "div9":
 		d.Cmp = func(a, b int) int { return cmp.Compare(floorDiv(a, 9), floorDiv(b, 9)) }
@@ -109,7 +124,7 @@ func intDom(n int, cmpName string) *Dom[int] {
 	default:
 		panic("unknown int comparator " + cmpName)
 	}
-	lo, hi := d.Tab[0], d.Tab[0]
+	lo, hi := 0, 0
 	for _, v := range d.Tab {
 		if v < -(1<<50) || v > 1<<50 {
 			continue
@@ -136,6 +151,9 @@ func strDom(n int, cmpName string, off int) *Dom[string] {
 		d.Ordered = true
 	case "rev":
 		d.Cmp = func(a, b string) int { return cmp.Compare(b, a) }
+		d.Class = strconv.Quote
+	case "natbig":
+		d.Cmp = func(a, b string) int { return cmp.Compare(a, b) * (1<<40 + 7) }
 		d.Class = strconv.Quote
 	case "len":
 		d.Cmp = func(a, b string) int { return cmp.Compare(len(a), len(b)) }
@@ -164,6 +182,8 @@ func itemDom(n int, cmpName string) *Dom[Item] {
 		d.Cmp = func(a, b Item) int { return cmp.Compare(a.P, b.P) }
 	case "rev":
 		d.Cmp = func(a, b Item) int { return cmp.Compare(b.P, a.P) }
+	case "natbig":
+		d.Cmp = func(a, b Item) int { return cmp.Compare(a.P, b.P) * (1<<40 + 7) }
 	default:
 		panic("unknown item comparator " + cmpName)
 	}
